@@ -65,10 +65,17 @@ def build(chk):
                   unwind=4, timeout=120, bounds='all lengths 0..8, strides 1..3, writable or not', backends=('minisat', 'kissat'))
         o.custom_replay = buffer_replay
         chk.add(o)
+    # ---- FixedVArray rows
+    ev = EngB(chk, 'pyvarray', py=True, validate=False)
+    ev.variant('exact')
+    o = ev.ob('O6.FixedVArray_getitem_row_view', 'c19/varray.c', 'h_varray_getitem', 'FixedVArray<int>.__getitem__(int): selects the row a list of lists selects (negative, masked, out-of-range indices) and the row view inherits the read-only flag',
+              defines=('N=%d' % N,), unwind=2 * N + 2, timeout=240, bounds='all lengths 0..%d, stride 1..2, direct or masked, writable or not, row lengths 0..4, all 2^64 indices' % N, backends=('kissat', 'cadical', 'minisat'))
+    o.replay_link = (ev.real(),)
+    chk.add(o)
     chk.stubs += ['operator new[] / delete[] (shape and stride arrays of BufferAPI): exactly-sized heap objects', 'PySlice_Unpack: returns the (start, stop, step) chosen by the harness', 'PySlice_AdjustIndices: transcription of CPython\'s public algorithm (this IS the Python-list slice semantics)',
                   'PyLong_AsSsize_t: returns the harness-chosen index', 'PyErr_SetString: no-op', 'boost::python::throw_error_already_set: sets the exception flag (PYERR)', 'shared_array reference counts start at 1000 (never reach zero)']
     chk.assumptions += ['representation invariant of a masked reference: _indices[i] < _unmaskedLength, _length <= _unmaskedLength',
                         'operation sequences are covered through one step from an arbitrary valid state', 'libstdc++ exception object constructors have no effect on the array']
-    chk.outside += ['lifetime of views under arbitrary release order (boost::any/shared_array graphs and boost.python call policies behind the Python FFI)', 'StringTable/StringArray (boost::multi_index)', 'FixedVArray, FixedArray2D, FixedMatrix: not yet covered',
+    chk.outside += ['lifetime of views under arbitrary release order (boost::any/shared_array graphs and boost.python call policies behind the Python FFI)', 'StringTable/StringArray (boost::multi_index)', 'FixedVArray beyond __getitem__(int) row views, FixedArray2D, FixedMatrix: not yet covered',
                     'getslice / mask constructors (heap allocation through shared_array): not yet covered', 'fixedArrayFromBuffer (candidate: copies view.len bytes into shape[0] elements without a size check): not yet covered', 'element types other than int']
     chk.not_encodable += ['view lifetimes / reference graphs', 'StringTable (boost::multi_index_container)']
